@@ -24,10 +24,11 @@ def A(loc, dom, **kw):
     return a
 
 
-SENDERS = [A("s", ["ok", "test"]), A("bad", ["bmf", "test"]), A("x", ["bmfdom", "test"]), A("", []), A("s", ["ok", "test"], long=1)]
+SENDERS = [A("s", ["ok", "test"]), A("bad", ["bmf", "test"]), A("x", ["bmfdom", "test"]), A("", []), A("s", ["ok", "test"], long=1),
+           A("bulk@good.test", ["bmfdom", "test"]), A("x@bmfdom.test", ["ok", "test"])]        # an '@' inside the (quoted) local part
 RCPTS = [A("r", ["rh", "test"]), A("r", ["sub", "dot", "test"]), A("r", ["dot", "test"]), A("r", ["more", "test"]), A("r", ["x", "moredot", "test"]),
          A("r", ["other", "test"]), A("r", ["x", "rh", "test"]), A("r", [], noat=1), A("r", [], lit=1), A("r", ["rh", "test"], long=1),
-         A("r", ["moredot", "test"]), A("q", ["rh", "test"])]
+         A("r", ["moredot", "test"]), A("q", ["rh", "test"]), A("r@rh.test", ["other", "test"]), A("r@other.test", ["rh", "test"])]
 BASE = {"rh": 1, "exact": [["rh", "test"], ["lip", "test"]], "suffix": [["dot", "test"]], "mexact": [["more", "test"]], "msuffix": [["moredot", "test"]],
         "bmfaddr": [{"loc": "bad", "dom": ["bmf", "test"]}], "bmfdom": [["bmfdom", "test"]], "lip": ["test", "example"], "relay": "unset"}
 # lip: control/localiphost; when the file is absent the name defaults to control/me (test.example in the sandbox)
@@ -97,7 +98,9 @@ def render(verb, mb, rng):
     kw = {"MAIL": "FROM", "RCPT": "TO"}[verb]
     kw = rng.choice([kw, kw.lower(), kw.capitalize()])
     form = rng.choice(["plain", "plain", "route", "bare", "quoted", "escaped", "space", "param"]) if mb else "plain"
-    loc, at, dom = mb.partition("@")
+    loc, at, dom = mb.rpartition("@") if "@" in mb else (mb, "", "")
+    if "@" in loc:
+        form = rng.choice(["quoted", "escaped"])        # an '@' in the local part can only be written quoted or escaped
     if form == "route" and at:
         arg = "%s:<@relay1.test,@relay2.test:%s>" % (kw, mb)
     elif form == "bare" and mb and " " not in mb:
@@ -275,8 +278,10 @@ def main():
         for ci, cfg in enumerate(cfgs):
             seqs = []
             if ci == 0:
-                for n in (1, 2, 3):
+                core = [c for c in cmds if c[0] not in ("EHLO", "VRFY", "HELP")]
+                for n in (1, 2):
                     seqs += [list(s) for s in itertools.product(cmds, repeat=n)]
+                seqs += [list(s) for s in itertools.product(core, repeat=3)]
             else:
                 for n in (2, 3):
                     seqs += [list(s) for s in itertools.product(small, repeat=n)]
